@@ -414,6 +414,15 @@ fn parse_case(c: &[u64]) -> Option<Case> {
 
 type Sock = NoiseSocket<Carrier>;
 
+/// both variants of the enum (it only labels log lines)
+fn transport_of(f: usize, wb: usize) -> HandshakeTransport {
+    if (f + wb) % 2 == 0 {
+        HandshakeTransport::Tcp
+    } else {
+        HandshakeTransport::WebSocket
+    }
+}
+
 fn pair_plain(rt: &tokio::runtime::Runtime, f: usize, wb: usize) -> (Sock, Sock, Rc<RefCell<Shared>>) {
     let sh = Rc::new(RefCell::new(Shared::default()));
     let c0 = Carrier { side: 0, sh: sh.clone() };
@@ -423,8 +432,8 @@ fn pair_plain(rt: &tokio::runtime::Runtime, f: usize, wb: usize) -> (Sock, Sock,
     let t = std::time::Duration::from_secs(20);
     let (a, b) = rt.block_on(async {
         tokio::join!(
-            handshake(c0, &k0, Role::Dialer, f, wb, t, HandshakeTransport::Tcp),
-            handshake(c1, &k1, Role::Listener, f, wb, t, HandshakeTransport::Tcp)
+            handshake(c0, &k0, Role::Dialer, f, wb, t, transport_of(f, wb)),
+            handshake(c1, &k1, Role::Listener, f, wb, t, transport_of(f, wb))
         )
     });
     let (a, _) = a.expect("handshake");
@@ -857,8 +866,8 @@ fn run_case(rt: &tokio::runtime::Runtime, c: &[u64]) -> Option<Vec<u64>> {
     let _guard = rt.enter();
     let waker = futures::task::noop_waker();
     let mut cx = Context::from_waker(&waker);
-    let mut fa = Box::pin(handshake(c0, &k0, Role::Dialer, f, wb, t, HandshakeTransport::Tcp));
-    let mut fb = Box::pin(handshake(c1, &k1, Role::Listener, f, wb, t, HandshakeTransport::Tcp));
+    let mut fa = Box::pin(handshake(c0, &k0, Role::Dialer, f, wb, t, transport_of(f, wb)));
+    let mut fb = Box::pin(handshake(c1, &k1, Role::Listener, f, wb, t, transport_of(f, wb)));
     let mut a: Option<Sock> = None;
     for _ in 0..16 {
         if let Poll::Ready(r) = fa.as_mut().poll(&mut cx) {
